@@ -34,19 +34,19 @@ MANIFEST = {
     "note": "Trusted: the gate (shared-memory counter) and the recording executor subclass; the FIFO-dispatch abstraction of ProcessPoolExecutor is validated on every trace by comparing the observed with the prescribed completion order. Scheduling inside one worker (numba/FFTW threads) is not controlled. Python enumerator cross-checks TLC's state/transition/trace counts.",
 }
 
-TOWERS = [("north", 50.0003, 10.0004, 5.0), ("south", 50.0001, 10.0008, 7.5), ("mast3", 50.0004, 10.0002, 6.0)]
+TOWERS = [("north", 50.0003, 10.0004, 5), ("south", 50.0001, 10.0008, 7.5), ("mast3", 50.0004, 10.0002, 6)]
 
 
 def make_config(nt, ns, use_cache, footprint=True):
     from bldfm.config_parser import parse_config_dict
 
     ust = [0.30, 0.45, 0.30, 0.38]  # step 2 repeats step 0 (cache hit inside one series)
-    wdir = [20.0, 250.0, 20.0, 135.0]
+    wdir = [20, 250, 20, 135]  # whole numbers as integers, the way a YAML file delivers them
     return parse_config_dict(
         {
             "domain": {"nx": 8, "ny": 6, "xmax": 80.0, "ymax": 60.0, "nz": 4, "modes": [8, 6], "ref_lat": 50.0, "ref_lon": 10.0, "halo": 20.0},
             "towers": [{"name": n, "lat": la, "lon": lo, "z_m": zm} for n, la, lo, zm in TOWERS[:nt]],
-            "met": {"ustar": ust[:ns], "wind_dir": wdir[:ns], "mol": -50.0, "wind_speed": 3.0, "timestamps": ["2024-07-01T%02d:00" % (10 + i) for i in range(ns)]},
+            "met": {"ustar": ust[:ns], "wind_dir": wdir[:ns], "mol": -50, "wind_speed": 3, "timestamps": ["2024-07-01T%02d:00" % (10 + i) for i in range(ns)]},
             "solver": {"footprint": footprint, "precision": "double"},
             "parallel": {"use_cache": use_cache},
         }
